@@ -18,7 +18,7 @@ from .model import AnalysisError, Repo
 from .report import Check, analysis_error
 
 PROPS = [f'C{i:02d}' for i in range(1, 34)]
-NOT_APPLICABLE = {'C30'}
+NOT_APPLICABLE: set = set()
 
 
 def run_check(pid: str, tier: str) -> int:
